@@ -272,18 +272,60 @@ func importCSS(url int, variant int) string {
 
 var mediaNames = []string{"all", "print", "screen", "speech"}
 
+// A media type is stored as m + 4*spelling: m indexes mediaNames, spelling is
+// 0 lower case, 1 UPPER CASE, 2 Capitalised, 3 aLTERNATING.  Media types are
+// ASCII case-insensitive identifiers (mediaqueries-4 2.3, css-syntax), so the
+// model only sees m (mediaCoq); the spelling only exists in the CSS text.
+func mediaSpell(v int) string {
+	name := mediaNames[v%4]
+	switch (v / 4) % 4 {
+	case 1:
+		return strings.ToUpper(name)
+	case 2:
+		return strings.ToUpper(name[:1]) + name[1:]
+	case 3:
+		b := []byte(name)
+		for i := 1; i < len(b); i += 2 {
+			b[i] = b[i] - 'a' + 'A'
+		}
+		return string(b)
+	}
+	return name
+}
+
+// media list of an @media / @import rule
 func mediaCSS(q []int) string {
 	var l []string
 	for _, m := range q {
-		l = append(l, mediaNames[m])
+		l = append(l, mediaSpell(m))
 	}
 	return strings.Join(l, ", ")
+}
+
+// media attribute of <style> / <link>: always lower case (findStylesheets
+// compares the attribute's types as written: not varied here, see notes/C03.md)
+func mediaAttrCSS(q []int) string {
+	var l []string
+	for _, m := range q {
+		l = append(l, mediaNames[m%4])
+	}
+	return strings.Join(l, ", ")
+}
+
+// random spelling of every type of the list (half of them lower case)
+func respell(r *vlib.Rng, q []int) []int {
+	for i := range q {
+		if r.Bool() {
+			q[i] = q[i]%4 + 4*r.Range(1, 3)
+		}
+	}
+	return q
 }
 
 func mediaCoq(q []int) string {
 	var l []string
 	for _, m := range q {
-		l = append(l, strconv.Itoa(m))
+		l = append(l, strconv.Itoa(m%4))
 	}
 	return vlib.List(l)
 }
@@ -515,7 +557,7 @@ func (d *Doc) materialise() (htmlText string, ua, ph string, users []string, f *
 	for _, a := range d.Authors {
 		media := ""
 		if len(a.Media) > 0 {
-			media = fmt.Sprintf(" media=\"%s\"", mediaCSS(a.Media))
+			media = fmt.Sprintf(" media=\"%s\"", mediaAttrCSS(a.Media))
 		}
 		var el string
 		if a.URL > 0 {
@@ -921,7 +963,9 @@ func (g *gen) body(depth int) []Item {
 	return out
 }
 
-func (g *gen) media() []int {
+func (g *gen) media() []int { return respell(g.r, g.mediaTypes()) }
+
+func (g *gen) mediaTypes() []int {
 	switch g.r.Intn(6) {
 	case 0:
 		return nil
@@ -1182,15 +1226,26 @@ const (
 
 var placementNames = []string{"plain", "media-match", "media-nomatch", "import", "nested", "nested-amp-list"}
 
+// spelling k%4 for every type of the list (deterministic: placements have no PRNG)
+func spellBy(q []int, k int) []int {
+	out := make([]int, len(q))
+	for i, m := range q {
+		out[i] = m%4 + 4*((k+i)%4)
+	}
+	return out
+}
+
 // wraps declaration d with selector s into rules according to the placement
 func place(pl int, s *Sel, d Decl, device int) []Rule {
 	style := Rule{K: RStyle, G: []*Sel{s}, B: []Item{{D: &d}}}
 	switch pl {
 	case plMediaYes:
 		q := [][]int{{0}, {device}, {3, device}, nil}[d.Vid%4]
+		q = spellBy(q, d.Vid/4)
 		return []Rule{{K: RMedia, Q: q, Inner: []Rule{style}}}
 	case plMediaNo:
 		q := [][]int{{3}, {3 - device}, {3 - device, 3}}[d.Vid%3]
+		q = spellBy(q, d.Vid/3)
 		return []Rule{{K: RMedia, Q: q, Inner: []Rule{style}}}
 	case plImport:
 		return []Rule{{K: RImport, Q: nil, Fetched: true, Inner: []Rule{style}}}
@@ -1283,13 +1338,13 @@ func importsDoc(r *vlib.Rng, seq int) (*Doc, []string) {
 	media := func() []int {
 		switch r.Intn(8) {
 		case 0:
-			return []int{device}
+			return respell(r, []int{device})
 		case 1:
-			return []int{0}
+			return respell(r, []int{0})
 		case 2:
-			return []int{3 - device} // does not match
+			return respell(r, []int{3 - device}) // does not match
 		case 3:
-			return []int{3, device}
+			return respell(r, []int{3, device})
 		}
 		return nil
 	}
